@@ -4,6 +4,8 @@ package encoder
 
 import (
 	"bytes"
+	"strconv"
+	"strings"
 
 	"github.com/ozanh/ugo"
 	"github.com/ozanh/ugo/encoder/opv1"
@@ -274,5 +276,51 @@ func VerifC11Kernel() {
 		verifrt.Assert(ok && v == 77 && len(cf.SourceMap) == 1, "source-map-relocated")
 	}
 	verifrt.ClearKnown()
+	verifrt.Reached("end")
+}
+
+// VerifC11Big: one function with n if-statements and a try statement at its
+// end, sized so that its v1 code is below 64 KiB while the widened v2 code is
+// above: relocated jump and try targets beyond 65535. Decoded v1 == the v2
+// program, instruction for instruction, and both run alike on two inputs.
+func VerifC11Big() {
+	n := verifrt.Param("n")
+	var sb strings.Builder
+	sb.WriteString("param a\nr := 0\n")
+	for i := 0; i < n; i++ {
+		sb.WriteString("if a == " + strconv.Itoa(i) + " { r += 1 }\n")
+	}
+	sb.WriteString("try { r += 10 / a } catch e { r = -1 } finally { r += 100 }\nreturn r")
+	bc, err := ugo.Compile([]byte(sb.String()), ugo.CompilerOptions{NoOptimize: true})
+	verifrt.Assert(err == nil, "compiles")
+	if err != nil {
+		return
+	}
+	verifrt.Note("v2 main size " + strconv.Itoa(len(bc.Main.Instructions)/1024) + " KiB")
+	v1 := &ugo.Bytecode{FileSet: bc.FileSet, NumModules: bc.NumModules, Constants: bc.Constants}
+	var ok bool
+	v1.Main, ok = verifDownConvert(bc.Main)
+	verifrt.Assert(ok, "v1-form-exists")
+	if !ok {
+		return
+	}
+	verifrt.Note("v1 main size " + strconv.Itoa(len(v1.Main.Instructions)/1024) + " KiB")
+	data, err := (*Bytecode)(v1).MarshalBinary()
+	verifrt.Assert(err == nil, "encodes")
+	data[4], data[5] = 0, 1
+	var got Bytecode
+	verifrt.NoPanic("decode-no-panic", func() { err = got.UnmarshalBinary(data) })
+	verifrt.Assert(err == nil, "v1-decodes")
+	if err == nil {
+		same := verifSameCF(got.Main, bc.Main)
+		verifrt.Assert(same, "v1-decodes-to-the-v2-program")
+		if same {
+			for _, a := range []int64{0, 2} {
+				v2v, e2, _ := ugo.VerifRunBC(bc, ugo.Int(a))
+				v1v, e1, _ := ugo.VerifRunBC((*ugo.Bytecode)(&got), ugo.Int(a))
+				verifrt.Assert(ugo.VerifSameError(e1, e2) && (e1 != nil || ugo.VerifSameObject(v1v, v2v)), "v1-runs-like-v2")
+			}
+		}
+	}
 	verifrt.Reached("end")
 }
